@@ -607,6 +607,22 @@ def Space.elementL (T : DTables) : List Space → List Inp → List Res → Res
   | _, _, acc => .prod false acc.reverse
 end
 
+/-- `space.element(inp, cast=cast)` (`order=None`): as `Space.element`, except that a product
+space with `cast=False` raises `TypeError` instead of delegating item-wise when not all items
+are elements of the respective components (`cast` is not passed down: the components'
+`element` is only reached with `cast=True`). -/
+def Space.elementC (T : DTables) (cast : Bool) : Space → Inp → Res
+  | .prod l w f, inp =>
+    if (Space.prod l w f).contains inp.space? then .same
+    else match inp.parts? with
+      | none => .errType
+      | some ps =>
+        if ps.length ≠ l.length then .errValue
+        else if Space.allMember l ps then .prod true []
+        else if cast then Space.elementL T l ps []
+        else .errType
+  | s, inp => s.element T inp
+
 /-! ## derived spaces -/
 
 /-- the weighting a space gets when none is passed on: constant 1.0, exponent 2.0 -/
